@@ -144,6 +144,16 @@ func (d *dumper) tid(t types.Type) string {
 		return ""
 	}
 	t = types.Unalias(t)
+	switch t.(type) {
+	case *types.Basic, *types.Named, *types.Pointer, *types.Slice, *types.Array, *types.Map, *types.Chan,
+		*types.Struct, *types.Interface, *types.Signature, *types.Tuple, *types.TypeParam:
+	default:
+		id := "opaque:" + t.String()
+		if _, ok := d.out.Types[id]; !ok {
+			d.out.Types[id] = &jType{Kind: "other", Name: t.String()}
+		}
+		return id
+	}
 	if v := d.canon.At(t); v != nil {
 		return v.(string)
 	}
